@@ -335,6 +335,23 @@ def run(ctx):
                     s = a.za.lin(C06.storage_subscript(y))
                     if idx and s and idx[0] == s[0] and idx[1] == s[1] + 1 and any(b in body for h, body in loops):
                         shift_right = True
+        if not shift_right:
+            # the same walk with a pointer / iterator into the storage: `*p` and `*(p - 1)` in one statement of a loop that steps p down
+            inl = set()
+            for h, body in loops:
+                inl |= set(body)
+            for bid, i, e in f.roots():
+                if bid not in inl:
+                    continue
+                t = fmt(e["expr"])
+                m = re.search(r"\(\*(\w+)\)", t)
+                if m and re.search(r"\(\*\(%s - 1\)\)" % re.escape(m.group(1)), t):
+                    pv = m.group(1)
+                    steps_down = any(re.fullmatch(r"\(?--%s\)?|\(?%s--\)?" % (pv, pv), fmt(e2["expr"])) for b2 in inl for e2 in f.elems(b2) if e2.get("expr") is not None)
+                    starts_at_end = any(isinstance(x2, dict) and x2.get("k") == "decl" and any(v["name"] == pv and re.fullmatch(r"\(?(this->)?c?end\(\) - 1\)?|\(?\(?(data_\.get\(\)|data\(\)) \+ size_\)? - 1\)?", fmt(ir.unwrap(v.get("init"))) if v.get("init") is not None else "") for v in x2.get("vars", []))
+                                        for _, _, e2 in f.roots() for x2 in [e2["expr"]])
+                    if steps_down and starts_at_end:
+                        shift_right = True
         ctx.check(shift_right, "R07.5", f, "emplace-shifts-tail-right",
                   "positional emplace does not move the tail one slot to the right before filling the position: it overwrites the element at the position instead of inserting before it", f)
     # ---- re-evaluate the C06 rules that are also necessary for sequence behaviour (append family, manual memory)
